@@ -20,6 +20,16 @@ def scenarios(t):
                             opts["seektable"] = st
                         sc.append({"id": "enc%d" % i, "kind": "write", "what": "encode", "fe": fe, "declared": declared, "start": start,
                                    "flush": fe == "byte-le", "opts": opts})
+    # the byte front ends with a torn PCM frame at the end (dropped by finalize), after a whole number of blocks or not
+    for fe in ("byte-le", "byte-be"):
+        for frames in (40, 32, 33):
+            for tail in (0, 1, 3):
+                for st in ("none", {"frames": 1}):
+                    if fe == "byte-le" and frames == 40 and tail == 0:
+                        continue
+                    i += 1
+                    sc.append({"id": "enc%d" % i, "kind": "write", "what": "encode", "fe": fe, "declared": False, "start": 0, "frames": frames, "tail": tail,
+                               "flush": bool(i % 2), "opts": {"block_size": 16, "padding": 40 if (i % 3) else -1, "seektable": st}})
     sc.append({"id": "stream", "kind": "write", "what": "stream"})
     sc.append({"id": "write_blocks", "kind": "write", "what": "write_blocks"})
     for e in ("equal", "grow", "shrink", "rebuild", "rebuild-sinkfault"):
